@@ -300,7 +300,12 @@ def run(ctx, chk):
                     continue
                 d = dims.dim(f, size)
                 key = 'size:%s/%s(%s)' % (base_name(name), what, pp.expr(_strip(size))[:60])
-                if d == CHARS:
+                mix = _mixed_sum(dims, f, size, prog)
+                if mix is not None:
+                    chk.bad('size-units', key, i.loc, '%s: the size `%s` of a character buffer adds the bare number %s to a byte count: '
+                            'a character (terminator) counted as one byte - the wide variant is %s short'
+                            % (name, pp.expr(_strip(size)), mix, 'sizeof(wchar_t) - 1 bytes'), func=name)
+                elif d == CHARS:
                     chk.bad('size-units', key, i.loc, '%s: %s takes a byte count but `%s` is a number of characters (missing * '
                             'sizeof(URI_CHAR)): the wide variant handles only a quarter of the text' % (name, what, pp.expr(_strip(size))),
                             func=name)
@@ -324,6 +329,30 @@ def run(ctx, chk):
                 else:
                     chk.bad('char-conversion', key, n.loc, '%s converts the character value `%s` to %s: for a negative char (bytes >= '
                             '0x80) the result differs from the wide variant\'s (sign extension)' % (name, pp.expr(_strip(src)), dt), func=name)
+
+
+def _mixed_sum(dims, f, e, prog):
+    """constant added to / subtracted from a byte count inside a size expression, or None"""
+    n = e
+    while n is not None and n.k == 'cast':
+        n = n.c[0]
+    if n is None or n.k != 'bin':
+        return None
+    if n.v in ('+', '-'):
+        da, db = dims.dim(f, n.c[0]), dims.dim(f, n.c[1])
+        for dx, dy, other in ((da, db, n.c[1]), (db, da, n.c[0])):
+            if dx == BYTES and dy == NUM:
+                cv = const_value(other, prog)
+                o = other
+                while o is not None and o.k == 'cast':
+                    o = o.c[0]
+                if cv not in (None, 0) and not (o is not None and o.k == 'sizeof'):
+                    return cv
+    for c in n.c:
+        r = _mixed_sum(dims, f, c, prog)
+        if r is not None:
+            return r
+    return None
 
 
 def _show(t):
